@@ -27,4 +27,9 @@ void harness(void) {
 	if (res == KSI_OK && g_pol_evals == 1) REACH("first policy decides");
 	if (res == KSI_OK && g_pol_evals == 3) REACH("two fallbacks");
 	if (res != KSI_OK && g_pol_evals == 2) REACH("internal error in a fallback policy");
+	/* (audit builderY) outcomes of the replaced Rule_verify at the step iteration of the fallback loop */
+	if (res != KSI_OK && g_pol_evals >= 3 && !g_fb_env_failed) REACH("internal error in a later fallback policy");
+	if (res == KSI_OK && g_pol_evals >= 2 && g_last_pol_code == KSI_VER_RES_OK) REACH("a fallback policy says OK after the first said FAIL/NA");
+	if (res == KSI_OK && g_pol_evals >= 2 && g_rv_left_cal && !g_rv_left_hash) REACH("last policy of several left a calendar chain but no hash in tempData");
+	if (res == KSI_OK && g_pol_evals >= 2 && !g_rv_left_cal && !g_rv_left_pub && !g_rv_left_hash) REACH("last policy of several left nothing in tempData");
 }
